@@ -69,8 +69,9 @@ def run(ctx):
     exes = C.build_harness_all_prec("h_drv.c", "plain", precs="ds")
     rng = random.Random(ctx.seed * 17 + 1717)
     jobs = []
-    for i in range(22 if q else 220):
-        name = SCEN[i % len(SCEN)]; prec = rng.choice("ds")
+    for i in range(2 * len(SCEN) if q else 20 * len(SCEN)):
+        # every scenario in both storage orientations (the drivers wrap a row-stored A in a temporary column-stored header)
+        name = SCEN[i % len(SCEN)]; prec = rng.choice("ds"); nr = (i // len(SCEN)) % 2 == 1
         n = rng.choice([3, 6, 10, 17])
         M = G.random_matrix(rng, n, rng.choice(["random", "band", "grid"]), "float"); M.vals = H.new_values(rng, M)
         Ms = G.Mat(n, M.colptr, M.rowind, list(M.vals))
@@ -79,9 +80,9 @@ def run(ctx):
         if prec == "s": G.round_single(M); G.round_single(Ms)
         b = H.rand_rhs(rng, n, prec == "s")
         body = "\n".join(scenario_ops(name, rng, n)) + "\n"
-        head = "ienv 8 4 200 200 100 -50 -50 -30\n" + G.script_mat(0, M, single=(prec == "s")) + G.script_mat(1, Ms, single=(prec == "s"))
+        head = "ienv 8 4 200 200 100 -50 -50 -30\n" + G.script_mat(0, M, nr=nr, single=(prec == "s")) + G.script_mat(1, Ms, nr=nr, single=(prec == "s"))
         head += G.script_rhs(0, n, 1, n, [b], False, prec == "s") + "permc_get 0 1\n"
-        jobs.append((name, prec, n, head, body))
+        jobs.append((name + (":NR" if nr else ":NC"), prec, n, head, body))
     def one(j):
         name, prec, n, head, body = j
         r2 = valgrind_leaks(exes[prec], head + body * 2 + "heap z\nquit\n")
@@ -104,7 +105,7 @@ def run(ctx):
                 ctx.violation("leak:%s:%s" % (name, site), "scenario %s leaks: %d bytes lost after 6 repetitions (%d after 2: %.0f bytes per repetition); allocation site %s; prec=%s n=%d" % (
                     name, t6, t2, per_rep, site, prec, n), blob)
     ctx.coverage.update({"evaluations": len(jobs) * 2, "distinct_nontrivial": len(jobs),
-                         "rule": "scenario x precision x size, each run under valgrind memcheck with 2 and with 6 repetitions of (call(s) + destroy); "
+                         "rule": "scenario x storage orientation (NC/NR) x precision x size, each run under valgrind memcheck with 2 and with 6 repetitions of (call(s) + destroy); "
                                  "definitely/indirectly lost blocks are leaks, attributed to the first non-allocator frame",
                          "scenarios": dict(hist), "leaking_scenario_sites": dict(leaks),
                          "samples": [{"scenario": j[0], "prec": j[1], "n": j[2]} for j in jobs[:3]]})
